@@ -366,6 +366,29 @@ func (g *G) boundSamples(c s2.Cell) []string {
 	for _, u := range []float64{b.X.Lo, b.X.Hi} {
 		a = append(a, fx(u), fx(v0), "0", fx(u), fx(v0), "1")
 	}
+	// points a few ulps INSIDE each corner, normalized: after normalization they can be farther from the axis of
+	// the bounding cap than the vertex itself (the cap must have slack for them: defects D34 / seeded C12_4)
+	in := func(x, lo, hi float64, k int) float64 {
+		for ; k > 0; k-- {
+			if x == lo {
+				x = math.Nextafter(x, hi)
+			} else if x == hi {
+				x = math.Nextafter(x, lo)
+			} else if x-lo < hi-x {
+				x = math.Nextafter(x, hi)
+			} else {
+				x = math.Nextafter(x, lo)
+			}
+		}
+		return cl(x, lo, hi)
+	}
+	for _, u := range []float64{b.X.Lo, b.X.Hi} {
+		for _, v := range []float64{b.Y.Lo, b.Y.Hi} {
+			for t := 0; t < 3; t++ {
+				a = append(a, fx(in(u, b.X.Lo, b.X.Hi, r.Intn(3))), fx(in(v, b.Y.Lo, b.Y.Hi, r.Intn(3))), "1")
+			}
+		}
+	}
 	for k := 0; k < 6; k++ { // random interior and edge points
 		u := b.X.Lo + r.Float()*(b.X.Hi-b.X.Lo)
 		v := b.Y.Lo + r.Float()*(b.Y.Hi-b.Y.Lo)
